@@ -24,6 +24,7 @@ type exprContext struct {
 	root             store.Cursor
 	result           Result
 	contextPosition  int
+	contextSize      int
 	principalKind    nodeKind
 	builtinFunctions map[XmlName]Function
 	ContextSettings
@@ -32,6 +33,7 @@ type exprContext struct {
 type Context interface {
 	Result() Result
 	ContextPosition() int
+	ContextSize() int
 }
 
 func (c *exprContext) Result() Result {
@@ -42,11 +44,18 @@ func (c *exprContext) ContextPosition() int {
 	return c.contextPosition
 }
 
+// ContextSize returns the number of nodes in the node list that is currently
+// being filtered by a predicate (the value of last()), or 1 outside predicates.
+func (c *exprContext) ContextSize() int {
+	return c.contextSize
+}
+
 func (e *exprContext) copy() exprContext {
 	return exprContext{
 		root:             e.root,
 		result:           e.result,
 		contextPosition:  e.contextPosition,
+		contextSize:      e.contextSize,
 		principalKind:    e.principalKind,
 		builtinFunctions: builtinFunctions,
 		ContextSettings:  e.ContextSettings,
